@@ -62,8 +62,12 @@ type InheritCfg struct {
 	Guard int `json:"guard,omitempty"`
 	// AliasSelf: the aliased block is imported "with a as a"; AliasSwap: two
 	// used blocks are imported under each other's names.
-	AliasSelf bool `json:"alias_self,omitempty"`
-	AliasSwap bool `json:"alias_swap,omitempty"`
+	// TopBlockFn: the template directly below the root assigns block('a') to a
+	// variable at its top level (1: plainly, 2: under an if, 3: inside a
+	// capture under an if); the root prints the variable after its layout.
+	TopBlockFn int  `json:"top_block_fn,omitempty"`
+	AliasSelf  bool `json:"alias_self,omitempty"`
+	AliasSwap  bool `json:"alias_swap,omitempty"`
 }
 
 var blockNames = []string{"a", "b", "c", "d"}
@@ -129,6 +133,17 @@ func BuildInherit(c *InheritCfg) *m.Program {
 			}
 			if c.Outside {
 				t.Body = append(t.Body, m.NText("OUT"+fmt.Sprint(lvl)), whoCall())
+			}
+			if c.TopBlockFn > 0 && lvl == root-1 {
+				call := &m.E{K: "blockfn", A: []*m.E{m.EStr("a")}}
+				switch c.TopBlockFn {
+				case 1:
+					t.Body = append(t.Body, &m.N{K: "set", S: "tb", X: call})
+				case 2:
+					t.Body = append(t.Body, &m.N{K: "if", X: m.EName("sel"), Body: []*m.N{{K: "set", S: "tb", X: call}}})
+				default:
+					t.Body = append(t.Body, &m.N{K: "if", X: m.EName("sel"), Body: []*m.N{{K: "setcap", S: "tb", Body: []*m.N{m.NText("<"), m.NPrint(call), m.NText(">")}}}})
+				}
 			}
 			for ni := 0; ni < c.Names; ni++ {
 				mode := c.Mode[lvl][ni]
@@ -198,6 +213,9 @@ func BuildInherit(c *InheritCfg) *m.Program {
 				t.Body = append(t.Body, m.NPrint(&m.E{K: "blockfn", A: []*m.E{m.EStr("a")}}))
 			}
 			t.Body = append(t.Body, m.NText("]"), whoCall())
+			if c.TopBlockFn > 0 {
+				t.Body = append(t.Body, m.NText("tb="), m.NPrint(m.EName("tb")))
+			}
 		}
 		p.Tpls = append(p.Tpls, t)
 	}
@@ -268,6 +286,9 @@ func GenInherit(t *rapid.T) *InheritCfg {
 	c.BlockFn = rapid.Bool().Draw(t, "blockfn")
 	c.Outside = rapid.Bool().Draw(t, "outside")
 	c.NestOver = rapid.Bool().Draw(t, "nestover")
+	if c.L >= 2 && rapid.IntRange(0, 3).Draw(t, "topblockfn") == 0 {
+		c.TopBlockFn = rapid.IntRange(1, 3).Draw(t, "tbf")
+	}
 	if rapid.IntRange(0, 3).Draw(t, "guarded") == 0 {
 		c.Guard = rapid.IntRange(1, 4).Draw(t, "guard")
 	}
